@@ -20,7 +20,11 @@ Kernels (DESIGN.md section 4, C06):
        on-current-line / any-line) and to the reference recogniser written from the documented
        grammar (harness/_C06_ref.py): accepted iff accepted ("never silently re-read"), same
        unconsumed rest (in a simple context a top-level infix operator is left unconsumed), same
-       verdict and asking order for all leaf values.
+       verdict and asking order for all leaf values.  K2q / K2q1: the same with soft- ("||") and hard-quoted
+       ('||') forms of the operator, parenthesis and symbol-name tokens in the alphabet (K2q), or replacing exactly one
+       token of a longer plain string (K2q1): a quoted token is never an operator, a parenthesis or a symbol name.
+       Every resolved primitive (all kernels) is applied twice - matchers to a second model, transformers to a second,
+       different model - and both results are compared with the oracle.
   K3   contexts restricted to a simple expression: `line-num INTEGER-MATCHER` inside line-matcher
        expressions; `line-num == K0 && A` is `(line-num == K0) && A`, never `line-num (== K0 && A)`.
 
@@ -233,8 +237,34 @@ def _k2_strings(case):
             yield prefix + suffix
 
 
-def _k2_items(case):
+def quoted_forms(t):
+    """soft- and hard-quoted form of a token: a quoted token is never an operator, a parenthesis or a symbol name"""
+    return ('"%s"' % t, "'%s'" % t)
+
+
+def _quotable(host):
+    return ('|', '(', ')', 'A') if host == 'transformer' else ('!', '&&', '||', '(', ')', 'A')
+
+
+def _k2_strings_of(case):
+    """The token strings of a K2 case.  quoted=None: the plain catalogue; 'one': every string of the plain
+    catalogue with exactly one operator / parenthesis / symbol-name token replaced by its soft- or hard-quoted
+    form; 'ext': the plain catalogue over the alphabet extended by all quoted forms (case['alphabet'] is
+    already the extended one)."""
+    if case.get('quoted') != 'one':
+        for toks in _k2_strings(case):
+            yield toks
+        return
+    quotable = _quotable(case['host'])
     for toks in _k2_strings(case):
+        for i, t in enumerate(toks):
+            if t in quotable:
+                for q in quoted_forms(t):
+                    yield toks[:i] + (q,) + toks[i + 1:]
+
+
+def _k2_items(case):
+    for toks in _k2_strings_of(case):
         src = R.render(toks)
         for simple, cur in VARIANTS:
             yield toks, src, simple, cur, None
@@ -436,7 +466,11 @@ def _stage1_compute(case):
             if gen is not None:
                 exp_tree, exp_rest = gen, []
             else:
-                ref = R.ref_parse(toks, levels, prefix, names, simple, cur, arg_prims)
+                rtoks = toks
+                if case.get('oracle_bug') == 'soft-quoted-is-operator':
+                    # seeded oracle error: a soft-quoted token denotes what it quotes
+                    rtoks = tuple(t[1:-1] if len(t) > 2 and t[0] == '"' and t[-1] == '"' else t for t in toks)
+                ref = R.ref_parse(rtoks, levels, prefix, names, simple, cur, arg_prims)
                 if ref[0] == 'err':
                     if real[0] != 'err':
                         bad.append(('accepted, but malformed: ' + ref[1], src, simple, cur, real[3]))
@@ -534,6 +568,13 @@ def _check_matcher_classes(case, classes, stubs, x, ks) -> bool:
         if bool(got) != bool(want) or log != asked_stubs:
             good = False
             _note('value/asking order differs', src, 'got', bool(got), list(log), 'want', bool(want), asked_stubs)
+        # the parsed object denotes a function: applied to a second model (a fresh one for text matchers) it
+        # must give the value of the tree again, asking the same leaves
+        del log[:]
+        got2 = m.matches_w_trace(X.model_for(host, x)).value
+        if bool(got2) != bool(want) or log != asked_stubs:
+            good = False
+            _note('second application: value/asking order differs', src, 'got', bool(got2), list(log), 'want', bool(want), asked_stubs)
     return good
 
 
@@ -590,6 +631,11 @@ def k_trans(i0: bool, i1: bool, i2: bool, i3: bool, t0: int, t1: int, t2: int, t
         if got != want:
             good = False
             _note('output differs', src)
+        # the parsed object denotes a function: applied to a second, different model it transforms that one too
+        got2 = t.transform(('m',))
+        if got2 != ('m',) + want:
+            good = False
+            _note('second application (to another model): output differs', src)
         if bool(t.is_identity_transformer) != all(ident[n] for n in order):
             good = False
             _note('is_identity_transformer differs', src)
@@ -611,15 +657,24 @@ def _leafdoc(host):
 def _k2_obligations(tier) -> List[Ob]:
     obs = []
 
-    def add(host, prefix, maxlen, timeout, shorter=False, **extra):
+    def add(host, prefix, maxlen, timeout, shorter=False, quoted=None, **extra):
         alphabet = K2_ALPHABET_T if host == 'transformer' else K2_ALPHABET_M
+        if quoted == 'ext':
+            alphabet = alphabet + tuple(q for t in _quotable(host) for q in quoted_forms(t))
         case = dict(family='K2', host=host, alphabet=alphabet, prefix=tuple(prefix), maxlen=maxlen, shorter=shorter)
+        if quoted:
+            case['quoted'] = quoted
         case.update(extra)
-        n = sum(1 for _ in _k2_strings(case))
+        n = sum(1 for _ in _k2_strings_of(case))
         what = ('all %d token strings of < %d tokens' % (n, len(prefix))) if shorter else (
             'all %d token strings of <= %d tokens that start with [%s]' % (n, maxlen, ' '.join(_tokname(t) for t in prefix)))
-        name = 'K2:%s:%s%s' % (host, 'short' if shorter else ('-'.join(_tokname(t) for t in prefix) or 'all'),
-                               ''.join(':' + str(v) for v in extra.values()))
+        if quoted == 'one':
+            what = ('%d token strings: every token string of <= %d tokens that starts with [%s], with exactly one operator / '
+                    'parenthesis / symbol-name token replaced by its soft-quoted ("..") or hard-quoted (\'..\') form'
+                    % (n, maxlen, ' '.join(_tokname(t) for t in prefix)))
+        name = 'K2%s:%s:%s%s' % ({None: '', 'one': 'q1', 'ext': 'q'}[quoted], host,
+                                 'short' if shorter else ('-'.join(_tokname(t) for t in prefix) or 'all'),
+                                 ''.join(':' + str(v) for v in extra.values()))
         obs.append(Ob(
             name=name, fn='k_trans' if host == 'transformer' else 'k_bool', case=case, kernel='K2',
             bound='%s host: %s over {%s} (catalogue enumerated by the harness; single blanks between tokens), parsers '
@@ -652,6 +707,25 @@ def _k2_obligations(tier) -> List[Ob]:
             for g in K2_ALPHABET_T:
                 add('transformer', (f, g), 8, 1200)
         add('transformer', ('A', 'A'), 8, 300, shorter=True)
+    # quoted operator / parenthesis tokens: "||", '(' .. are never operators or parentheses
+    if tier == 'quick':
+        add('integer', (), 3, 300, quoted='ext')
+        add('integer', (), 4, 300, quoted='one')
+        for host in ('line', 'string', 'file', 'files'):
+            add(host, (), 2, 300, quoted='ext')
+        add('transformer', (), 3, 300, quoted='ext')
+        add('transformer', (), 4, 300, quoted='one')
+    else:
+        for f in K2_ALPHABET_M:
+            add('integer', (f,), 4, 600, quoted='ext')
+            add('integer', (f,), 6, 1200, quoted='one')
+        for host in ('line', 'string', 'file', 'files'):
+            add(host, (), 3, 600, quoted='ext')
+            add(host, (), 4, 600, quoted='one')
+        for f in K2_ALPHABET_T:
+            add('transformer', (f,), 4, 600, quoted='ext')
+            add('transformer', (f,), 6, 1200, quoted='one')
+    add('integer', ('A',), 3, 300, quoted='one', oracle_bug='soft-quoted-is-operator')
     add('integer', ('A', '||', 'B', '&&'), 5, 300, oracle_bug='precedence')
     add('integer', ('A',), 3, 300, oracle_bug='eager')
     add('transformer', ('A',), 3, 300, oracle_bug='right-to-left')
